@@ -676,7 +676,8 @@ class Run:
 
         def chk(sig, got, want, what, tol=TOL, grad=False):
             ok, d = self.close(got, want, tol)
-            self.note(sig, d if d == d else 0.0)
+            if ok:
+                self.note(sig, d if d == d else 0.0)
             if not ok and grad:
                 gfail.append((f'{sig}-{name}', f'{what}: max rel. difference '
                               f'{d:.3g}'))
@@ -738,7 +739,8 @@ class Run:
                     xm[i] -= FD_H
                     fd[i] = (cg.get_cost(xp) - cg.get_cost(xm)) / (2 * FD_H)
                 okfd = np.all(np.abs(g - fd) <= 1e-7 + 1e-5 * np.abs(fd))
-                self.note('grad-fd', float(np.max(np.abs(g - fd))))
+                if okfd:
+                    self.note('grad-fd', float(np.max(np.abs(g - fd))))
                 ck.bump('finite_difference_checks')
                 if not okfd:
                     gfail.append((
@@ -1812,9 +1814,15 @@ def section_malformed(R: Run):
 def run(ck: Check):
     from translate import instorder
     thorough = ck.tier == 'thorough'
+    import time
+    phases = {}
+    t0 = time.time()
     table = instorder.generate()
     ck.coverage['instantiater_order'] = [list(e) for e in table['entries']]
+    ck.coverage['selection_expressions'] = [list(e) for e in
+                                            table['selections']]
     proved = ck.lean_obligations()
+    phases['translate+lean'] = round(time.time() - t0, 1)
     os.environ.setdefault('RUST_BACKTRACE', '0')
     R = Run(ck)
     if ck.replay_path:
@@ -1831,12 +1839,17 @@ def run(ck: Check):
             print('replay: re-running the section with the recorded seed')
         return
     scale = 6 if thorough else 1
-    section_costs(R, 150 * scale, 36 * scale)
-    section_instantiate(R, 72 * scale)
-    section_qfactor_contract(R)
-    section_select(R, 160 * scale)
-    section_setparams(R, 120 * scale)
-    section_malformed(R)
+    for name, fn in [
+            ('costs', lambda: section_costs(R, 150 * scale, 36 * scale)),
+            ('instantiate', lambda: section_instantiate(R, 72 * scale)),
+            ('qfactor-contract', lambda: section_qfactor_contract(R)),
+            ('select', lambda: section_select(R, 160 * scale)),
+            ('set_params', lambda: section_setparams(R, 120 * scale)),
+            ('malformed', lambda: section_malformed(R))]:
+        t0 = time.time()
+        fn()
+        phases[name] = round(time.time() - t0, 1)
+    ck.coverage['phases_s'] = phases
     ck.coverage['max_differences'] = {k: float(f'{v:.3g}')
                                       for k, v in sorted(R.maxdiff.items())}
     if not proved:
